@@ -209,11 +209,13 @@ func threadRun(L *LState) {
 					L.G.CurrentThread = parent
 					L.Parent = nil
 					L.kill()
-					L.Push(lv)
+					L.reg.pushAlways(lv)
 					parent.Panic(L)
 				} else {
+					// SetTop(0) only goes down to the current frame's base, which can be the registry's limit
+					// (a Go function without arguments): the error value must not need room
 					L.SetTop(0)
-					L.Push(lv)
+					L.reg.pushAlways(lv)
 					switchToParentThread(L, 1, true, true)
 				}
 			} else {
